@@ -46,13 +46,15 @@ def build(tier="quick", seed=0):
 
     def mkrec():
         D = it.call(RD, ["c09/rec", [("varint", "n"), ("string", "s"), ("string[]", "tags")]], {})
-        return it.call(D, [], {"n": 5, "s": "abc", "tags": ["a", "b"]})
+        rec = it.call(D, [], {"n": 5, "s": "abc", "tags": ["a", "b"]})
+        rec.desc_at_creation = D  # (record classes are memoised per (name, fields): a later descriptor of the same shape re-points cls._desc)
+        return rec
 
     def allowed(fn, rec):
         if isinstance(fn, PFunc):
             return any(fn is f for f in sel.g["FUNCTION_WHITELIST"])
         if isinstance(fn, PBound):
-            return fn.func.name == "getfields" and fn.self_obj is rec.cls.d["_desc"]
+            return fn.func.name == "getfields" and fn.self_obj is rec.desc_at_creation
         if isinstance(fn, PObj):
             return fn.cls is base.g["DynamicFieldtypeModule"]
         return any(fn is b for b in ALLOWED_BUILTINS)
